@@ -58,6 +58,8 @@ def check(run, replay=None):
             os.remove(run.path("bin", "modeldrv"))
         except OSError:
             pass
+    if prop == "C18":
+        return check_c18(run, gen, cases, events, drv, err, excluded)
     insts = []
     for c in cases:
         for i, d in enumerate(c["instances"]):
@@ -113,3 +115,41 @@ def check(run, replay=None):
                calibration_skipped=skipped, exhaustive=True, build_error=err[:500],
                definitions_set_aside_because_generated_code_does_not_build=excluded)
     return finish(run, "model_checking", cov, ASSUME)
+
+
+def check_c18(run, gen, cases, events, drv, err, excluded):
+    """spec -> generated models -> codescan -> definitions; TLC compares with JsonSchema!SchemaDiffs."""
+    if events[0]["exit"] != 0:
+        raise Infra("generate model failed: " + err)
+    vh = run.build_vh()
+    mod = os.path.join(run.work, "gen")
+    run.sh([vh, "scan-models", "-dir", mod, "-pkg", "./models", "-out", run.path("scanned.ndjson"), "-raw", run.path("scanned.json")],
+           cwd=mod, timeout=1800)
+    sc = read_ndjson(run.path("scanned.ndjson"))
+    found = {e["def"]: e["schema"] for e in sc[1:]}
+    sc[0]["defs"] = found
+    events = [e for e in events if e["ev"] == "Generate"] + [sc[0]]
+    for c in cases:
+        events.append(dict(ev="Scanned", found=c["name"] in found, schema=found.get(c["name"], {}), **{"def": c["name"]}))
+    tpath = run.path("trace.ndjson"); write_ndjson(tpath, events)
+    r = run.tlc("TraceModels", "TraceModels_C18", workers=1, timeout=3000, files={"trace.ndjson": tpath}, allow_fail=True)
+    if r["depth"] != len(events) + 1 or not r["ok"]:
+        raise Infra("trace not fully consumed: depth %d of %d lines\n%s" % (r["depth"], len(events), r["out"][-3000:]))
+    rejects, seen = [], set()
+    for t, e in r["emitted"]:
+        if t == "REJECT" and e["line"] not in seen:
+            seen.add(e["line"]); rejects.append(e)
+    for e in rejects:
+        ev = events[e["line"] - 1]
+        if ev["ev"] != "Scanned":
+            run.violations.append(dict(signature=e["why"], detail=ev)); continue
+        diffs = " ".join(sorted(e["why"].split()))
+        run.violations.append(dict(signature="%s: %s" % (ev["def"], diffs),
+                                   detail=dict(definition=ev["def"], differs=diffs, scanned=ev["schema"],
+                                               original=next(c["schema"] for c in cases if c["name"] == ev["def"]))))
+    cov = dict(states=gen["states"], transitions=gen["transitions"], traces_validated_against_impl=len(cases),
+               definitions=len(cases), evaluations=len(cases), distinct_nontrivial=len(cases),
+               rule="every definition of ModelCases through generate model and codescan; all distinct",
+               samples=[dict(definition=c["name"], schema=c["schema"]) for c in cases[:2]], rejected_events=len(rejects),
+               exhaustive=True, definitions_set_aside_because_generated_code_does_not_build=excluded)
+    return finish(run, "model_checking", cov, ASSUME[:2] + ["golang.org/x/tools/go/packages loads the generated package offline"])
